@@ -68,20 +68,33 @@ Obligations == {"must_fail", "complete_if_zero", "view_if_zero", "free"}
 
 \* ---------------------------------------------------------------------------------------------------
 \* outcomes and the obligations on them
-\* o: [exit, says_fail, want, got, outs_ok, view_ok]
+\* o: [exit, says_fail, want, got, outs_ok, view_ok, rt_ok]
 \*   want / got: sets of <<name, token>>;  outs_ok: every produced file is accepted by the library
+\*   rt_ok: the conversion A -> B (this run) followed by B -> A' gave token(A') = token(A), or that is not demanded of this path
 \* ---------------------------------------------------------------------------------------------------
 Complete(o) == o.want \subseteq o.got /\ o.outs_ok
 O1(r, o) == FailureClass(r) => o.exit # 0
 O2(r, o) == o.says_fail => o.exit # 0
 O3(r, o) == (o.exit = 0 /\ Producer(r.fam, r.cmd)) => Complete(o)
+\* O5: conversions along representable paths (same version, or up to a newer version and back) lose nothing:
+\* converting the result back yields an object with the same token.  The paths are listed explicitly, per file kind.
+RoundTripExact == {
+    <<"adt", "classic>cataclysm>classic">>, <<"adt", "classic>wotlk>classic">>,
+    <<"anim", "legion>legion>legion">>,
+    <<"m2", "cataclysm>cataclysm>cataclysm">>, <<"m2", "mop>cataclysm>mop">>, <<"m2", "tbc>1.12.1>tbc">>, <<"m2", "tbc>cataclysm>tbc">>,
+    <<"m2", "vanilla>1.12.1>vanilla">>, <<"m2", "vanilla>cataclysm>vanilla">>, <<"m2", "wotlk>cataclysm>wotlk">>,
+    <<"skin", "wotlk>wotlk>wotlk">>,
+    <<"wdl", "legion>legion>legion">>, <<"wdl", "vanilla>legion>vanilla">>, <<"wdl", "vanilla>wotlk>vanilla">>, <<"wdl", "wotlk>wotlk>wotlk">>,
+    <<"wdt", "wotlk>classic>wotlk">> }
+O5(r, o) == o.exit = 0 => o.rt_ok
 O4(r, o) == (o.exit = 0 /\ Viewer(r.fam, r.cmd) /\ r.lib = "ok") => o.view_ok     \* a view needs a library view to compare with
-Truthful(r, o) == O1(r, o) /\ O2(r, o) /\ O3(r, o) /\ O4(r, o)
+Truthful(r, o) == O1(r, o) /\ O2(r, o) /\ O3(r, o) /\ O4(r, o) /\ O5(r, o)
 \* which obligation an outcome breaks (used as the rejection reason in trace validation)
 Broken(r, o) == IF ~O1(r, o) THEN "exit0-on-failure-class"
                 ELSE IF ~O2(r, o) THEN "exit0-after-printing-failure"
                 ELSE IF ~O3(r, o) THEN "exit0-with-incomplete-output"
                 ELSE IF ~O4(r, o) THEN "exit0-with-wrong-view"
+                ELSE IF ~O5(r, o) THEN "exit0-but-roundtrip-differs"
                 ELSE "none"
 
 \* ---------------------------------------------------------------------------------------------------
@@ -100,7 +113,7 @@ Maps == UNION {[S -> Toks] : S \in SUBSET Names}
 AsSet(m) == {<<n, m[n]>> : n \in DOMAIN m}
 Run0(f, c, inp) == [fam |-> f, cmd |-> c, input |-> inp, lib |-> "ok", libval |-> "ok", missing |-> FALSE, skip |-> FALSE]
 
-NoOutcome == [exit |-> 0, says_fail |-> FALSE, want |-> {}, got |-> {}, outs_ok |-> TRUE, view_ok |-> TRUE]
+NoOutcome == [exit |-> 0, says_fail |-> FALSE, want |-> {}, got |-> {}, outs_ok |-> TRUE, view_ok |-> TRUE, rt_ok |-> TRUE]
 NoRun == [r |-> Run0("mpq", "-", "valid"), o |-> NoOutcome]
 EmptyMap == [n \in {} |-> "t"]
 HasRun == vlast.r.cmd # "-"
@@ -111,7 +124,7 @@ Create(ok) ==
     /\ ~vmade
     /\ LET r == Run0("mpq", "create", "valid")
            o == [exit |-> IF ok THEN 0 ELSE 1, says_fail |-> ~ok, want |-> AsSet(vdisk),
-                 got |-> IF ok THEN AsSet(vdisk) ELSE {}, outs_ok |-> TRUE, view_ok |-> TRUE] IN
+                 got |-> IF ok THEN AsSet(vdisk) ELSE {}, outs_ok |-> TRUE, view_ok |-> TRUE, rt_ok |-> TRUE] IN
        /\ varch' = IF ok THEN vdisk ELSE EmptyMap
        /\ vmade' = ok
        /\ vlast' = [r |-> r, o |-> o]
@@ -134,26 +147,26 @@ Extract(req, skip) ==
            exit == IF failed # {} /\ ~skip THEN 1 ELSE 0
            written == [n \in readable |-> varch[n]]
            o == [exit |-> exit, says_fail |-> exit # 0, want |-> {<<n, varch[n]>> : n \in readable},
-                 got |-> AsSet(written), outs_ok |-> TRUE, view_ok |-> TRUE] IN
+                 got |-> AsSet(written), outs_ok |-> TRUE, view_ok |-> TRUE, rt_ok |-> TRUE] IN
        /\ vout' = written
        /\ vlast' = [r |-> r, o |-> o]
     /\ UNCHANGED <<vdisk, vmade, varch, vdamaged>>
 
-\* mpq validate: reads every file
+\* mpq validate as coded (since 01748b8): reads every file, fails when one cannot be read
 Validate ==
     /\ vmade
     /\ LET bad == vdamaged # {}
            r == [Run0("mpq", "validate", IF bad THEN "flagged" ELSE "valid") EXCEPT !.libval = IF bad THEN "fail" ELSE "ok"]
-           o == [exit |-> IF bad THEN 1 ELSE 0, says_fail |-> bad, want |-> {}, got |-> {}, outs_ok |-> TRUE, view_ok |-> TRUE] IN
+           o == [exit |-> IF bad THEN 1 ELSE 0, says_fail |-> bad, want |-> {}, got |-> {}, outs_ok |-> TRUE, view_ok |-> TRUE, rt_ok |-> TRUE] IN
        vlast' = [r |-> r, o |-> o]
     /\ UNCHANGED <<vdisk, vmade, varch, vdamaged, vout>>
 
-\* the code as written (F-C20-a): validate reports the failure and returns Ok(())
-ValidateAsCoded ==
+\* DEVIATION (the code before /repo commit 01748b8, F-C20-a): validate reports the failure and returns Ok(())
+ValidateDeviant ==
     /\ vmade
     /\ LET bad == vdamaged # {}
            r == [Run0("mpq", "validate", IF bad THEN "flagged" ELSE "valid") EXCEPT !.libval = IF bad THEN "fail" ELSE "ok"]
-           o == [exit |-> 0, says_fail |-> bad, want |-> {}, got |-> {}, outs_ok |-> TRUE, view_ok |-> TRUE] IN
+           o == [exit |-> 0, says_fail |-> bad, want |-> {}, got |-> {}, outs_ok |-> TRUE, view_ok |-> TRUE, rt_ok |-> TRUE] IN
        vlast' = [r |-> r, o |-> o]
     /\ UNCHANGED <<vdisk, vmade, varch, vdamaged, vout>>
 
@@ -161,7 +174,7 @@ ValidateAsCoded ==
 View ==
     /\ vmade
     /\ vlast' = [r |-> Run0("mpq", "list", "valid"),
-                 o |-> [exit |-> 0, says_fail |-> FALSE, want |-> {}, got |-> {}, outs_ok |-> TRUE, view_ok |-> TRUE]]
+                 o |-> [exit |-> 0, says_fail |-> FALSE, want |-> {}, got |-> {}, outs_ok |-> TRUE, view_ok |-> TRUE, rt_ok |-> TRUE]]
     /\ UNCHANGED <<vdisk, vmade, varch, vdamaged, vout>>
 
 \* any sub-command of any family on any input class: a truthful tool fails exactly on the failure class
@@ -169,7 +182,7 @@ Other(f, c, inp, lib) ==
     /\ ~vmade /\ ~HasRun                 \* stateless runs: explored once per input directory, not per session state
     /\ LET r == [Run0(f, c, inp) EXCEPT !.lib = lib]
            o == [exit |-> IF FailureClass(r) THEN 1 ELSE 0, says_fail |-> FailureClass(r), want |-> {}, got |-> {},
-                 outs_ok |-> TRUE, view_ok |-> TRUE] IN
+                 outs_ok |-> TRUE, view_ok |-> TRUE, rt_ok |-> TRUE] IN
        vlast' = [r |-> r, o |-> o]
     /\ UNCHANGED <<vdisk, vmade, varch, vdamaged, vout>>
 
@@ -181,7 +194,7 @@ NextIntended ==
     \/ View
     \/ \E fc \in AllCmds : \E inp \in Inputs : \E lib \in {"ok", "err"} :
           (inp = "nonexistent" => lib = "ok") /\ Other(fc[1], fc[2], inp, lib)
-NextAsCoded == NextIntended \/ ValidateAsCoded
+NextDeviant == NextIntended \/ ValidateDeviant
 
 \* ---------------------------------------------------------------------------------------------------
 \* what TLC checks on the model
